@@ -5,6 +5,7 @@ package harness
 import (
 	"bytes"
 	"fmt"
+	"io"
 	"strings"
 	"testing"
 
@@ -27,6 +28,21 @@ func (d *detReader) Read(p []byte) (int, error) {
 		p[i] = byte((d.s * 2685821657736338717) >> 56)
 	}
 	return len(p), nil
+}
+
+// periodicReader yields an endless stream with the given period.
+type periodicReader struct {
+	period int
+	seed   byte
+	i      int
+}
+
+func (p *periodicReader) Read(b []byte) (int, error) {
+	for k := range b {
+		b[k] = byte(p.i%p.period)*31 + p.seed
+		p.i++
+	}
+	return len(b), nil
 }
 
 // recT stands in for testing.T where the generators want a require.TestingT.
@@ -154,7 +170,12 @@ func TestC19_P_FixtureGenerators(t *testing.T) {
 			case "UnixFSFile":
 				chunker := rapid.SampledFrom([]string{"size-64", "size-256", "size-1024", "size-256144", "rabin-64-128-256"}).Draw(t, "chunker")
 				opt = chunker
-				de, err = testutil.UnixFSFile(*ls, size, testutil.WithRandReader(r), testutil.WithChunker(chunker))
+				var src io.Reader = r
+				if period := rapid.SampledFrom([]int{0, 0, 1, 64, 256}).Draw(t, "period"); period > 0 {
+					src = &periodicReader{period: period, seed: byte(seed)} // a random source may repeat itself: identical chunks
+					opt += fmt.Sprintf(" period=%d", period)
+				}
+				de, err = testutil.UnixFSFile(*ls, size, testutil.WithRandReader(src), testutil.WithChunker(chunker))
 			case "GenerateFile":
 				de = testutil.GenerateFile(rec, ls, r, size)
 			case "UnixFSDirectory":
@@ -171,6 +192,9 @@ func TestC19_P_FixtureGenerators(t *testing.T) {
 				nfiles := rapid.IntRange(0, 30).Draw(t, "nfiles")
 				opt = fmt.Sprintf("bitwidth=%d files=%d", bw, nfiles)
 				n := 0
+				reuse := rapid.Bool().Draw(t, "reuseVariable")
+				opt += fmt.Sprintf(" reuse=%v", reuse)
+				var shared testutil.DirEntry // a generator may hand back a pointer to one variable it refills on every call
 				de, err = testutil.UnixFSDirectory(*ls, 0, testutil.WithRandReader(r), testutil.WithShardBitwidth(bw), testutil.WithChildGenerator(func(name string) (*testutil.DirEntry, error) {
 					n++
 					if n > nfiles {
@@ -178,6 +202,10 @@ func TestC19_P_FixtureGenerators(t *testing.T) {
 					}
 					e, err := testutil.UnixFSFile(*ls, 100+n, testutil.WithRandReader(r))
 					e.Path = name
+					if reuse {
+						shared = e
+						return &shared, err
+					}
 					return &e, err
 				}))
 			case "GenerateDirectory":
